@@ -66,6 +66,8 @@ def build_config(case: dict[str, Any]) -> EnOptConfig:
         cfg["optimizer"]["max_iterations"] = case["max_iterations"]
     if case["mask"] is not None:
         cfg["variables"]["mask"] = case["mask"]
+    if case.get("types") is not None:
+        cfg["variables"]["types"] = case["types"]
     if case["nl"]:
         cfg["nonlinear_constraints"] = {"lower_bounds": [b[0] for b in case["nl"]], "upper_bounds": [b[1] for b in case["nl"]]}
     if case["lin"]:
@@ -252,6 +254,14 @@ def run_case(case: dict[str, Any]) -> dict[str, Any]:  # noqa: C901, PLR0912, PL
                 else "max-iterations-wrong"
             raise Violation(sig, f"max_iterations={case['max_iterations']} but the back-end receives {got!r} "
                             f"(options given as {OPTIONS[case['options']]!r})", case)
+    if case.get("types") is not None and method == "differential_evolution":
+        # integer variables: the flags handed to SciPy describe the free variables, one flag each
+        exp_int = (np.array(case["types"]) == 2)[free]  # noqa: PLR2004
+        got_int = kw.get("integrality")
+        # (flags that are not handed at all - options given as None or a list - are outside the statement: it speaks about what is exposed)
+        check(got_int is None or (np.shape(got_int) == exp_int.shape and bool(np.array_equal(np.asarray(got_int, dtype=bool), exp_int))),
+              "integrality", f"integrality flags {None if got_int is None else np.asarray(got_int).tolist()} handed to SciPy, the free variables "
+              f"have {exp_int.tolist()}", case)
     if isinstance(OPTIONS[case["options"]], dict) and method != "differential_evolution":
         limit_key = "maxfun" if method == "tnc" else "maxiter"
         for key, val in OPTIONS[case["options"]].items():
@@ -394,6 +404,7 @@ def hypothesis_shard(item: dict[str, Any]) -> Collector:
             ub = [v if np.isfinite(v) else 4.0 for v in ub]
         case["lb"], case["ub"] = lb, ub
         case["x0"] = [draw(st.sampled_from([0.0, 0.5, -0.5, 1.0])) for _ in range(n)]
+        case["types"] = [draw(st.sampled_from([1, 2])) for _ in range(n)] if draw(st.integers(0, 2)) == 0 else None
         c_n, l_n = draw(st.integers(0, 3)), draw(st.integers(0, 3))
         case["nl"] = [list(kind_bounds(draw(st.sampled_from(HYP_KINDS)), draw(num), draw(st.sampled_from([0.5, 2.0])))) for _ in range(c_n)]
         case["lin"] = [list(kind_bounds(draw(st.sampled_from(HYP_KINDS)), draw(num), draw(st.sampled_from([0.5, 2.0])))) for _ in range(l_n)]
@@ -417,7 +428,7 @@ def hypothesis_shard(item: dict[str, Any]) -> Collector:
         nontrivial = not info["rejected"] and (mixed or case["mask"] is not None or (
             case["max_iterations"] is not None and not isinstance(OPTIONS[case["options"]], dict)))
         col.case(case, nontrivial=nontrivial, classes=(
-            f"method={case['method']}", "rejected" if info["rejected"] else "handed", "masked" if case["mask"] else "unmasked",
+            f"method={case['method']}", "rejected" if info["rejected"] else "handed", "masked" if case["mask"] else "unmasked", "integer-variables" if case.get("types") and 2 in case["types"] else "real-variables",
             f"C={len(case['nl'])}", f"L={len(case['lin'])}"))
 
     run_hypothesis(col, cases(), body, seed=item["seed"], max_examples=item["examples"])
